@@ -96,6 +96,24 @@ def s_b58_strings():
     return st.one_of(good, bad).map(lambda s: {"s": s})
 
 
+def s_b58_runs():
+    """strings built from runs: segments of one repeated symbol (weighted to '1' = digit zero and 'z' = digit 57, run
+    lengths 1-24 so that aligned blocks of 8 / 16 equal digits occur) interleaved with random symbols"""
+    sym = st.sampled_from("1111zz2" + B58)
+    run = st.builds(lambda c, n: c * n, sym, st.sampled_from([1, 2, 7, 8, 9, 15, 16, 17, 24, 3, 5]))
+    rnd = st.lists(st.sampled_from(B58), max_size=9).map("".join)
+    return st.lists(st.one_of(run, run, rnd), min_size=1, max_size=7).map(lambda segs: {"s": "".join(segs)})
+
+
+def cases_b58_powers(tier):
+    """values m * 58^k + d for small m, d: base-58 digit strings with long interior zero runs, and their byte forms"""
+    for k in range(0, 41):
+        for m in (1, 2, 57, 58, 59):
+            for d in (0, 1, 57, 58):
+                v = m * 58 ** k + d
+                yield {"data": v.to_bytes(max(1, (v.bit_length() + 7) // 8), "big").hex()}
+
+
 # ------------------------------------------------------------------ base58check corruption
 
 
@@ -417,6 +435,12 @@ SUBCHECKS = [
     SubCheck("b58_strings_generated", o_b58_string, strategy=s_b58_strings, budget=(4000, 400000),
              nontrivial=lambda c, l: "invalid-char" in l or c["s"].startswith("1"),
              rule="alphabet strings with leading 1s, and strings with one injected out-of-alphabet/unicode character (must raise EncodingError)"),
+    SubCheck("b58_digit_runs", o_b58_string, strategy=s_b58_runs, budget=(4000, 300000),
+             nontrivial=lambda c, l: len(c["s"]) >= 9,
+             rule="alphabet strings made of runs of a repeated symbol (weighted to the zero digit '1' and the top digit 'z', run lengths around 8 / 16 / 24) mixed with random symbols: a2b == reference and b2a(a2b(s)) == s; non-trivial = at least 9 symbols"),
+    SubCheck("b58_powers_of_58", o_b58_bytes, cases=cases_b58_powers, exhaustive=True,
+             nontrivial=lambda c, l: True,
+             rule="byte strings whose value is m*58^k + d, k = 0..40, m in {1,2,57,58,59}, d in {0,1,57,58}: encoder == reference and round trip"),
     SubCheck("b58check_corruption", o_b58check_corrupt, strategy=s_b58check_corrupt, budget=(4000, 400000),
              rule="valid Base58Check strings with 1-4 corrupted checksum bytes or characters; expected verdict = checksum recomputed by the reference over the corrupted string (exact)"),
     SubCheck("bech32_triples", o_bech32_triple, strategy=triples, budget=(4000, 400000), nontrivial=nt_triple,
